@@ -162,6 +162,78 @@ class Report(Harness):
         return Outcome("report", got == exp, {"got": got, "expected": exp})
 
 
+class Faults(Harness):
+    """The library calls are pvl_flavor's environment.  They are replaced by a stub whose outcome the solver
+    chooses - the load returns, or raises LexerError, ParseError or some OTHER exception (RuntimeError,
+    RecursionError on deep nesting, KeyError ...); the dump returns or raises ValueError - together with the
+    verbosity.  Whatever happens the verdict is (load succeeded, dump succeeded or None) and the report for the
+    file is produced."""
+    prop = "C20"
+    alphabet = "ascii"
+    must_reach = ("verdict",)
+    functions = ("pvl.pvl_validate.pvl_flavor", "pvl.pvl_validate.report")
+    LOADS = ("ok", "LexerError", "ParseError", "RuntimeError", "RecursionError", "KeyError", "ValueError")
+    DUMPS = ("ok", "ValueError", "LexerError")
+    stubs = ("pvl.loads / pvl.dumps as seen by pvl_validate: outcome chosen by the solver (documented contract: "
+             "LexerError/ParseError on load, ValueError on dump; any other exception on load is caught by the tool's "
+             "own catch-all)",)
+
+    @property
+    def bounds(self):
+        return ("dialect row %s; load outcome in %s, dump outcome in %s, verbosity 0-3; one file" % (
+            self.dialect, self.LOADS, self.DUMPS))
+
+    def inputs(self, ctx):
+        from .c10 import pick
+        return {"load": pick(ctx, "load", 0, len(self.LOADS) - 1), "dump": pick(ctx, "dump", 0, len(self.DUMPS) - 1),
+                "verbose": pick(ctx, "verbose", 0, 3)}
+
+    def prop_fn(self, L, inp):
+        tool = L.tool("pvl_validate")
+        lo, du, verbose = self.LOADS[inp["load"]], self.DUMPS[inp["dump"]], inp["verbose"]
+        ex = L.exceptions
+
+        def exc(name):
+            if name == "LexerError":
+                return ex.LexerError("stub", "a = b", 1, "a")
+            if name == "ParseError":
+                return ex.ParseError("stub")
+            return {"RuntimeError": RuntimeError, "RecursionError": RecursionError, "KeyError": KeyError,
+                    "ValueError": ValueError}[name]("stub")
+
+        class Stub:
+            __version__ = "stub"
+
+            @staticmethod
+            def loads(text, **kw):
+                if lo != "ok":
+                    raise exc(lo)
+                return L.collections.PVLModule(a=1)
+
+            @staticmethod
+            def dumps(m, **kw):
+                if du != "ok":
+                    raise exc(du)
+                return "a = 1"
+        real = tool.pvl
+        logging.disable(logging.CRITICAL)
+        tool.pvl = Stub
+        try:
+            try:
+                got = tool.pvl_flavor("a = 1", self.dialect, tool.dialects[self.dialect], "file.lbl", verbose)
+                results = {k: (True, True) for k in ORDER}
+                results[self.dialect] = got
+                rep = tool.report([("file.lbl", results)], list(ORDER))
+            except Exception as e:       # noqa: the tool must not die
+                return Outcome("died", False, {"load": lo, "dump": du, "verbose": verbose, "exception": repr(e)[:200]})
+        finally:
+            tool.pvl = real
+        exp = (True, du == "ok") if lo == "ok" else (False, None)
+        words = {True: "Loads", False: "does NOT load"}
+        ok = tuple(got) == exp and isinstance(rep, str) and words[exp[0]] in rep
+        return Outcome("verdict", ok, {"load": lo, "dump": du, "verbose": verbose, "got": list(got), "expected": list(exp)})
+
+
 class Translate(Harness):
     prop = "C20"
     must_reach = ("written", "refused")
@@ -237,6 +309,8 @@ def obligations(tier):
             if f == "unq:unquoted:2" and d in ("ISIS", "Omni"):
                 continue      # two free characters can spell 'x=': a symbolic parameter name cannot go into the tool's own PVLModule
             obs.append(Flavor(dialect=d, family=f))
+    for d in ORDER:
+        obs.append(Faults(dialect=d))
     obs.append(Report(files=1))
     obs.append(Report(files=2))
     obs.append(Report(files=3))
